@@ -1,5 +1,6 @@
 import BinlogVerif.Conc.Queue
 import BinlogVerif.Conc.Session
+import BinlogVerif.Conc.Macro
 /-
   Line-protocol glue for the concurrent core (queue scripts; session scripts).
 -/
@@ -275,5 +276,33 @@ def cmdSession (toks : List String) : String :=
         ";".intercalate outs
       | _, _, _, _, _ => "bad-op"
     | _ => "bad-op"
+
+/-- the 48 call sites of harness/macro_harness.cpp: site = 2 * (macro index) + (0 args | 2 args); macros ordered as
+    `Macro.macroTable` -/
+def macroSite (site : Nat) : Option Macro.Stmt :=
+  match Macro.macroTable[site / 2]? with
+  | some (_, sev, usesWriter, _) => some ⟨site, if usesWriter then 1 else 0, sev, if site % 2 = 0 then 0 else 2⟩
+  | none => none
+
+/-- `macro min <session> <sev> stmt <site> …` -/
+def cmdMacro (toks : List String) : String :=
+  let rec go (s : Macro.St) (toks : List String) (outs : List String) (fuel : Nat) : List String :=
+    match fuel with
+    | 0 => outs
+    | fuel + 1 =>
+      match toks with
+      | "min" :: a :: b :: rest =>
+        match a.toNat?, b.toNat? with
+        | some a, some b => go (Macro.step s (.setMin a b)) rest (outs ++ ["min"]) fuel
+        | _, _ => outs ++ ["bad-op"]
+      | "stmt" :: a :: rest =>
+        match a.toNat?.bind macroSite with
+        | some st =>
+          let s' := Macro.step s (.stmt st)
+          go s' rest (outs ++ [s!"stmt events={s'.events - s.events} sources={s'.sources - s.sources} evals={s'.evals - s.evals}"]) fuel
+        | none => outs ++ ["bad-op"]
+      | [] => outs
+      | _ => outs ++ ["bad-op"]
+  ";".intercalate (go {} toks [] (toks.length + 1))
 
 end BinlogVerif.ConcProto
